@@ -73,3 +73,7 @@ def Read(text, strict=False):
         return Reader(Parser.parse(text)).Read()
     except RINGError as exc:
         raise exc
+    except RecursionError:
+        from .. Error import RINGReaderError
+        raise RINGReaderError('RING input is nested too deeply for the '
+                              'recursive-descent reader')
